@@ -110,7 +110,40 @@ def r1_only_tracked_paths_deleted(repo=None):
             and pyfront.const(c.args[0]) == "secs" for c in ast.walk(n.ast))]
         structural = bool(G) and bool(ret) and not any(x.id in g.reach([g.entry.id], avoid=G) for x in ret) and not any(
             x.id in g.reach([b_ for i in G for b_, lab in g.succ[i] if lab == "exc"], avoid=G) for x in ret)
-        if ret and kv and secs_ok and (structural or all(pyutil.truth_guarded(g, x.id, kv) for x in ret)):
+        proved = False
+        vw = m.flat(q, depth=4)
+        cls_ = q.rsplit(".", 1)[0]
+        hcalls = [(n, n.ast.targets[0].id, cls_ + "." + pyfront.call_name(n.ast.value)[5:]) for n in g.nodes
+                  if isinstance(n.ast, ast.Assign) and len(n.ast.targets) == 1 and isinstance(n.ast.targets[0], ast.Name)
+                  and isinstance(n.ast.value, ast.Call) and (pyfront.call_name(n.ast.value) or "").startswith("self._")
+                  and cls_ + "." + pyfront.call_name(n.ast.value)[5:] in m.functions]
+        if not (structural or all(pyutil.truth_guarded(g, x.id, kv) for x in ret)) and not vw.inlined and hcalls:
+            # the match is made by a private helper that is not inlined (it returns from inside its loop): summary of the helper
+            # ("a value other than None only after the `secs` group of a match was read") + path-sensitive pass over the caller
+            forks = {n.id: var for n, var, hq in hcalls if _helper_matches_before_value(m, hq)}
+            if forks:
+                MS1 = mutation_states(g, set(), copies=True, exc_pre=True, forks=forks)
+                proved = bool(ret) and all(MS1.get(x.id) and all(mut for env_, mut in MS1[x.id]) for x in ret)
+                secs_ok = secs_ok or proved
+            if not proved:
+                raise AnalysisError("%s: whether a FileRecord is built only after a regex match that yielded `secs` is not decided (helpers %s)" % (
+                    q, sorted(h for _, _, h in hcalls)))
+        if not (proved or structural or all(pyutil.truth_guarded(g, x.id, kv) for x in ret)) and vw.inlined:
+            # the match is made by a private helper that hands back (match, key) or None: path-sensitive pass over the flat view - at
+            # every return of a FileRecord the `secs` group of a match has been read without raising
+            f2, g2 = vw.fn(), vw.cfg()
+            G2 = {n.id for n in g2.nodes if n.ast is not None and not isinstance(n.ast, (ast.For, ast.Try, ast.If, ast.While)) and any(
+                isinstance(c, ast.Call) and isinstance(c.func, ast.Attribute) and c.func.attr == "group" and c.args
+                and pyfront.const(c.args[0]) == "secs" for c in ast.walk(n.ast))}
+            ret2 = [n for n in g2.nodes if n.kind == "return" and "FileRecord" in n.label]
+            secs_ok = secs_ok or (bool(G2) and any(isinstance(lp, ast.For) and norm(ast.unparse(lp.iter)) == "self.regexes" for lp in ast.walk(f2)))
+            if G2 and ret2:
+                MS2 = mutation_states(g2, G2, copies=True, exc_pre=True)
+                proved = all(MS2.get(x.id) and all(mut for env_, mut in MS2[x.id]) for x in ret2)
+            if not proved:
+                raise AnalysisError("%s: whether a FileRecord is built only after a regex match that yielded `secs` is not decided (helpers %s inlined)" % (
+                    q, vw.inlined))
+        if ret and kv and secs_ok and (proved or structural or all(pyutil.truth_guarded(g, x.id, kv) for x in ret)):
             r.ok("%s:%s %s" % (m.rel, ret[0].line, q), "a FileRecord is built only after one of the handler's regexes matched the path and "
                  "yielded a `secs` group (`%s` is not None)" % kv)
         elif not ret or not kv:
@@ -152,7 +185,7 @@ def r1_only_tracked_paths_deleted(repo=None):
     return r
 
 
-def mutation_states(g, muts):
+def mutation_states(g, muts, copies=False, exc_pre=False, forks=None):
     """Small path-sensitive analysis: for every CFG node the set of pairs (None-ness of the local names tested with
     `is None` / `is not None`, has-a-mutation-node-been-passed).  Branches of such tests filter the pairs, so the
     correlation `k is None  <=>  the else-branch already inserted` is kept.  Returns {node id: set of (frozenset, bool)}."""
@@ -161,6 +194,17 @@ def mutation_states(g, muts):
         if n.kind == "cond" and isinstance(n.ast, ast.Compare) and len(n.ast.ops) == 1 and isinstance(n.ast.left, ast.Name) \
                 and isinstance(n.ast.comparators[0], ast.Constant) and n.ast.comparators[0].value is None:
             tested.add(n.ast.left.id)
+    if copies:
+        # names copied into a tested name are tracked as well (`timed = __inl_1` after a helper was inlined)
+        changed = True
+        while changed:
+            changed = False
+            for n in g.nodes:
+                a = n.ast
+                if isinstance(a, ast.Assign) and len(a.targets) == 1 and isinstance(a.targets[0], ast.Name) and a.targets[0].id in tested \
+                        and isinstance(a.value, ast.Name) and a.value.id not in tested:
+                    tested.add(a.value.id)
+                    changed = True
 
     def setv(env, k, v):
         d = dict(env)
@@ -174,8 +218,13 @@ def mutation_states(g, muts):
             mut = True
         if isinstance(a, ast.Assign) and len(a.targets) == 1 and isinstance(a.targets[0], ast.Name) and a.targets[0].id in tested:
             v = a.value
-            env = setv(env, a.targets[0].id, ("None" if (isinstance(v, ast.Constant) and v.value is None) else
-                                            "NotNone" if isinstance(v, ast.Constant) else "Top"))
+            if copies and isinstance(v, ast.Name) and v.id in tested:
+                env = setv(env, a.targets[0].id, dict(env).get(v.id, "Top"))
+            elif copies and isinstance(v, (ast.Tuple, ast.List, ast.Dict, ast.Set, ast.JoinedStr)):
+                env = setv(env, a.targets[0].id, "NotNone")
+            else:
+                env = setv(env, a.targets[0].id, ("None" if (isinstance(v, ast.Constant) and v.value is None) else
+                                                "NotNone" if isinstance(v, ast.Constant) else "Top"))
         elif isinstance(a, ast.For):
             for t in ast.walk(a.target):
                 if isinstance(t, ast.Name) and t.id in tested:
@@ -199,9 +248,20 @@ def mutation_states(g, muts):
     while work:
         a = work.pop()
         for st in list(IN[a]):
-            out = step(g.nodes[a], st)
-            for b, lab in g.succ[a]:
+            outs = [step(g.nodes[a], st)]
+            if forks and a in forks:
+                # `v = helper(...)` where the helper hands back None, or a value after passing a mutation node of its own
+                tested.add(forks[a])
+                outs = [(setv(st[0], forks[a], "None"), st[1]), (setv(st[0], forks[a], "NotNone"), True)]
+            for out in outs:
+              for b, lab in g.succ[a]:
                 if lab == "exc":
+                    if exc_pre:
+                        # the node raised: its own effect did not happen
+                        cur = IN.setdefault(b, set())
+                        if st not in cur:
+                            cur.add(st)
+                            work.append(b)
                     continue
                 if not edge_ok(g.nodes[a], lab, out):
                     continue
@@ -211,6 +271,26 @@ def mutation_states(g, muts):
                     work.append(b)
     # state *after* the node for returns is what matters: apply step
     return {k: {step(g.nodes[k], st) for st in v} for k, v in IN.items()}
+
+
+def _helper_matches_before_value(m, hq):
+    """does private helper hq return a non-None value only after reading the `secs` group of a match without raising?"""
+    hf, hg = m.fn(hq), m.cfg(hq)
+    G = {n.id for n in hg.nodes if n.ast is not None and not isinstance(n.ast, (ast.For, ast.Try, ast.If, ast.While)) and any(
+        isinstance(c, ast.Call) and isinstance(c.func, ast.Attribute) and c.func.attr == "group" and c.args
+        and pyfront.const(c.args[0]) == "secs" for c in ast.walk(n.ast))}
+    if not G or not any(isinstance(lp, ast.For) and norm(ast.unparse(lp.iter)) == "self.regexes" for lp in ast.walk(hf)):
+        return False
+    MS = mutation_states(hg, G, copies=True, exc_pre=True)
+    rets = [n for n in hg.nodes if n.kind == "return"]
+    for n in rets:
+        v = n.ast.value if isinstance(n.ast, ast.Return) else None
+        if v is None or (isinstance(v, ast.Constant) and v.value is None):
+            continue
+        if not MS.get(n.id) or not all(mut for env_, mut in MS[n.id]):
+            return False
+    # falling off the end returns None
+    return bool(rets)
 
 
 def _returns(fn):
@@ -490,7 +570,32 @@ def r4_limits_reestablished(repo=None):
                     and isinstance(v.left, ast.Tuple) and len(v.left.elts) == 1:
                 n_prepend += 1
             else:
-                bad_compose = n
+                # a sum of tuples: where does the base class stand?  last (mixins first in the MRO) is the other accepted form
+                ops_ = []
+
+                def flat_(e):
+                    if isinstance(e, ast.BinOp) and isinstance(e.op, ast.Add):
+                        flat_(e.left)
+                        flat_(e.right)
+                    else:
+                        ops_.append(e)
+                flat_(v)
+
+                def has_base(e):
+                    return (isinstance(e, ast.Name) and e.id == bv) or (isinstance(e, (ast.Tuple, ast.List)) and any(
+                        isinstance(x, ast.Name) and x.id == BASE for x in e.elts))
+                pos = [i for i, e in enumerate(ops_) if has_base(e)]
+                last = ops_[-1]
+                base_last = len(pos) == 1 and pos[0] == len(ops_) - 1 and (
+                    isinstance(last, ast.Name) or (isinstance(last.elts[-1], ast.Name) and last.elts[-1].id == BASE
+                                                   and sum(1 for x in last.elts if isinstance(x, ast.Name) and x.id == BASE) == 1))
+                if base_last and len(ops_) >= 2:
+                    init_ok = True
+                    n_prepend += 1
+                elif pos:
+                    bad_compose = n           # the base class stands before something else: positive evidence
+                else:
+                    raise AnalysisError("DigitalRFRingbufferHandler: composition `%s` of the bases not recognised" % norm(ast.unparse(n))[:80])
         elif isinstance(n, ast.AugAssign) and isinstance(n.target, ast.Name) and n.target.id == bv:
             bad_compose = n
     # every mixin is offered: named directly in a prepend, or listed in the module-level table the prepending loop iterates over
